@@ -68,8 +68,9 @@ func (s *objectStash) createBinding(name string, deletable bool, value Value) {
 	if !deletable {
 		mode = propertyMode(0o110)
 	}
-	// TODO False?
-	s.object.defineProperty(name, value, mode, false)
+	// 10.2.1.2.2: [[DefineOwnProperty]] with Throw true (a binding that cannot
+	// be created, on a non-extensible object, is a TypeError).
+	s.object.defineProperty(name, value, mode, true)
 }
 
 func (s *objectStash) setBinding(name string, value Value, strict bool) {
